@@ -17,6 +17,9 @@ NormBuf(e) == [r \in ReadEnds(ObsEnds(e)) \cup DOMAIN ObsBufV(e) |-> IF r \in DO
 Lost(e) == IF \E p \in ObsEnds(e) : p.r \notin DOMAIN ObsBufV(e) THEN {"pipe-lost-its-buffer"} ELSE {}
 Same(e) == ObsEnds(e) = ends /\ NormBuf(e) = buf
 
+\* the destination must take the bytes that are actually delivered (min(request, available)), not the whole request:
+\* e.dstroom = number of writable bytes from the destination address to the end of its area (0: unmapped / read-only)
+DstOk(e) == ReadCount(buf, e.fd, e.n) <= e.dstroom
 Bad(e) ==
   CASE e.ev = "pipe" ->
          IF e.k = "err" /\ Same(e) THEN {}                         \* a refused pipe() (descriptor clash) changes nothing
@@ -43,15 +46,15 @@ Bad(e) ==
     [] e.ev = "read" ->
          IF IsPipeRead(ends, e.fd) THEN
               \* delivering zero bytes to an unwritable destination may succeed or fail
-              IF ~e.dstok /\ ReadCount(buf, e.fd, e.n) = 0 /\ e.k = "err" /\ Same(e) THEN {}
-              ELSE IF ~e.dstok /\ ReadCount(buf, e.fd, e.n) > 0 THEN
+              IF ~e.dstmapped /\ ReadCount(buf, e.fd, e.n) = 0 /\ e.k = "err" /\ Same(e) THEN {}
+              ELSE IF ~DstOk(e) /\ ReadCount(buf, e.fd, e.n) > 0 THEN
                    (IF e.k = "ok" THEN {"read-into-unwritable-memory-ok"} ELSE {}) \cup (IF ~Same(e) THEN {"failed-read-changed-pipes"} ELSE {})
               ELSE (IF e.k # "ok" THEN {"pipe-read-" \o e.k} ELSE {})
                    \cup (IF ObsEnds(e) # ends THEN {"read-changed-descriptors"} ELSE {})
                    \cup (IF e.k = "ok" /\ NormBuf(e) # ReadBuf(buf, e.fd, e.n) THEN {"read-buffer-content"} ELSE {})
                    \cup (IF e.k = "ok" /\ e.rax # ReadCount(buf, e.fd, e.n) THEN {"read-return-value"} ELSE {})
-                   \cup (IF e.k = "ok" /\ e.dstok /\ Take(e.got, ReadCount(buf, e.fd, e.n)) # ReadData(buf, e.fd, e.n) THEN {"read-delivered-bytes"} ELSE {})
-                   \cup (IF e.k = "ok" /\ e.dstok /\ Drop(e.got, ReadCount(buf, e.fd, e.n)) # Drop(e.before, ReadCount(buf, e.fd, e.n)) THEN {"read-wrote-beyond-count"} ELSE {})
+                   \cup (IF e.k = "ok" /\ DstOk(e) /\ Take(e.got, ReadCount(buf, e.fd, e.n)) # ReadData(buf, e.fd, e.n) THEN {"read-delivered-bytes"} ELSE {})
+                   \cup (IF e.k = "ok" /\ DstOk(e) /\ Drop(e.got, ReadCount(buf, e.fd, e.n)) # Drop(e.before, ReadCount(buf, e.fd, e.n)) THEN {"read-wrote-beyond-count"} ELSE {})
                    \cup (IF e.userhook THEN {"pipe-call-leaked-to-user-hook"} ELSE {})
          ELSE (IF ~e.userhook THEN {"non-pipe-read-not-left-for-other-hooks"} ELSE {})
               \cup (IF ~Same(e) THEN {"non-pipe-read-changed-pipes"} ELSE {})
@@ -60,7 +63,7 @@ Bad(e) ==
 \* history-based FIFO statement, checked on the recorded execution itself
 W2(e) == IF e.ev = "write" /\ e.k = "ok" /\ IsPipeWrite(ends, e.fd) /\ e.srcok
          THEN [written EXCEPT ![ReadEndOf(ends, e.fd)] = @ \o e.data] ELSE written
-R2(e) == IF e.ev = "read" /\ e.k = "ok" /\ IsPipeRead(ends, e.fd) /\ e.dstok
+R2(e) == IF e.ev = "read" /\ e.k = "ok" /\ IsPipeRead(ends, e.fd) /\ DstOk(e)
          THEN [readout EXCEPT ![e.fd] = @ \o Take(e.got, Min(e.rax, Len(e.got)))] ELSE readout
 Ext(f, dom) == [x \in dom |-> IF x \in DOMAIN f THEN f[x] ELSE <<>>]
 FifoBad(e) == LET w == Ext(W2(e), DOMAIN NormBuf(e)) r == Ext(R2(e), DOMAIN NormBuf(e)) IN
